@@ -8,16 +8,24 @@ def seq_jobs(qmax, tiers, suffix, to):
     # loop over the queue storage: in the quick tier (capacity 64) such a loop is then fully unwound and decided
     uw = ["--unwind", str(qmax + 6), "--unwinding-assertions"] if qmax <= 64 else []
     n = "queue capacity symbolic in [2, %d]" % qmax
+    mem = 4 if qmax <= 64 else 12
     return [
-      Job("c02.push" + suffix, TU, "h_push", replace=LOCKS, defines=d, cbmc=uw, tiers=tiers, fuc=["myth_queue_push"], timeout=to, mem_gb=12, note=n),
-      Job("c02.pop" + suffix, TU, "h_pop", replace=LOCKS, defines=d, cbmc=uw, tiers=tiers, fuc=["myth_queue_pop"], timeout=to, mem_gb=12, note=n),
-      Job("c02.take" + suffix, TU, "h_take", replace=LOCKS, defines=d, cbmc=uw, tiers=tiers, fuc=["myth_queue_take"], timeout=to, mem_gb=12, note=n),
-      Job("c02.peek" + suffix, TU, "h_peek", replace=LOCKS, defines=d, cbmc=uw, tiers=tiers, fuc=["myth_queue_peek"], timeout=to, mem_gb=12, note=n),
-      Job("c02.put" + suffix, TU, "h_put", replace=LOCKS, defines=d, cbmc=uw, tiers=tiers, fuc=["myth_queue_put"], timeout=to, mem_gb=12, note=n),
-      Job("c02.trypass" + suffix, TU, "h_trypass", replace=LOCKS, defines=d, cbmc=uw, tiers=tiers, fuc=["myth_queue_trypass"], timeout=to, mem_gb=12, note=n),
+      Job("c02.push" + suffix, TU, "h_push", replace=LOCKS, defines=d, cbmc=uw, tiers=tiers, fuc=["myth_queue_push"], timeout=to, mem_gb=mem, note=n),
+      Job("c02.pop" + suffix, TU, "h_pop", replace=LOCKS, defines=d, cbmc=uw, tiers=tiers, fuc=["myth_queue_pop"], timeout=to, mem_gb=mem, note=n),
+      Job("c02.take" + suffix, TU, "h_take", replace=LOCKS, defines=d, cbmc=uw, tiers=tiers, fuc=["myth_queue_take"], timeout=to, mem_gb=mem, note=n),
+      Job("c02.peek" + suffix, TU, "h_peek", replace=LOCKS, defines=d, cbmc=uw, tiers=tiers, fuc=["myth_queue_peek"], timeout=to, mem_gb=mem, note=n),
+      Job("c02.put" + suffix, TU, "h_put", replace=LOCKS, defines=d, cbmc=uw, tiers=tiers, fuc=["myth_queue_put"], timeout=to, mem_gb=mem, note=n),
+      Job("c02.trypass" + suffix, TU, "h_trypass", replace=LOCKS, defines=d, cbmc=uw, tiers=tiers, fuc=["myth_queue_trypass"], timeout=to, mem_gb=mem, note=n),
     ]
 HS = ["myth_wsqueue_rwbarrier/fence_contract", "myth_wsqueue_lock_lock/lock_contract", "myth_wsqueue_lock_unlock/unlock_contract", "env_thieves/env_thieves"]
-JOBS = seq_jobs(64, ("quick",), "", 300) + seq_jobs(512, ("thorough",), ".512", 1800) + [
+INITCLR = [
+  Job("c02.init", TU, "h_init", replace=["myth_wsqueue_lock_init/lock_init_contract"], fuc=["myth_queue_init", "myth_malloc"], timeout=300, mem_gb=12,
+      note="the real capacity INITIAL_QUEUE_SIZE (131072 cells, 1 MB memset by CBMC's built-in model); every cell NULL by ghost witness"),
+  Job("c02.clear", TU, "h_clear", replace=["myth_wsqueue_lock_lock/lock_quiescent_contract"] + LOCKS[1:], fuc=["myth_queue_clear"], timeout=300),
+  Job("c02.pass", TU, "h_pass", replace=["myth_queue_trypass/trypass_contract"], loops={"myth_queue_pass": [dict(loop_id="0", assigns="g_tp_calls, g_tp_ok, ret", invariants="g_tp_ok == 0", symbol_map="ret,myth_queue_pass::1::ret")]},
+      loop_counts={"myth_queue_pass": 1}, fuc=["myth_queue_pass"], timeout=300),
+]
+JOBS = INITCLR + seq_jobs(64, ("quick",), "", 300) + seq_jobs(512, ("thorough",), ".512", 1800) + [
   Job("c02.pop_vs_thieves", "c02_handshake.c", "h_pop_vs_thieves", replace=HS, defines=["-DQMAX=64"], cbmc=["--unwind", "70", "--unwinding-assertions"],
       fuc=["myth_queue_pop"], timeout=300, tiers=("quick",),
       note="owner pop against the exact SC model of all concurrent thieves; capacity symbolic in [2,64]"),
